@@ -153,6 +153,18 @@ CHECKS = {
         'Same search for the variables block. All 138 known property names x {get,set,set empty,del} by DOM and CSS name.',
         'Trusted: mc/model/ref_decl.py, ref_vars.py (written from the statement); leniencies (name order by last entry, Python negative indexes, empty value = removal) are listed in the evidence.',
     ),
+    'C13': (
+        'exploration',
+        'full cross product (every known property name x ~400 values) x routes x 1-deviation spellings x round trip x validation switches, with differential oracles and a CSS 2.1 reference grammar',
+        'DESIGN.md 3/C13',
+        'All 138 known property names (plus unknown names) x a menu of 394 (quick) / 429 (thorough) values - every keyword of every CSS 2.1 keyword '
+        'property, lengths/percentages/numbers/integers, colours in every form, url(), strings, near misses - are pushed through every route (parsed in '
+        'a style rule, in @font-face, Property(), style[name]=, profile.validate), spellings with <=1 deviation, a serialise/reparse round trip and all '
+        'validation switch settings: the verdict must be identical across routes/spellings/round trip, agree with the CSS 2.1 grammar reference (exactly in a '
+        'CSS 2.1-only registry, with CSS3 additions as don\'t-care otherwise), unknown names never valid, block/rule/sheet valid iff all declarations, and '
+        'stored/serialised content identical with validation on and off. Exhaustive over the table.',
+        'Trusted: mc/model/ref_css21.py (typed from CSS 2.1 Appendix F) with its explicit don\'t-care set; @font-face is its own context.',
+    ),
 }
 
 PENDING = {}
